@@ -172,7 +172,14 @@ def _check(case, cfg, files_raw, paths, d, res, ctx) -> None:  # noqa: ANN001
         if extra:
             res.bad("only-complete-events", f"rank {r}: rows for non-complete entries {extra}: {[files_raw[r]['traceEvents'][i] for i in extra[:2]]}")
         missing = sorted(set(exp) - set(ids))[:5]
-        if missing and not trimming:
+        # loading cuts the trailing iteration off a rank that recorded at least two profiler steps (C12 judges what exactly);
+        # a rank with fewer keeps every complete event, whatever the other ranks recorded
+        trims_this_rank = trimming and len({e.name for e in m if not e.device_side and isinstance(e.name, str) and "ProfilerStep" in e.name}) >= 2
+        if trims_this_rank:
+            res.counters["ranks_that_may_be_trimmed"] += 1
+        elif trimming:
+            res.counters["ranks_with_fewer_than_two_steps_in_a_trimming_load"] += 1
+        if missing and not trims_this_rank:
             res.bad("every-complete-event", f"rank {r}: complete events missing {missing}: {[exp[i].raw for i in missing[:2]]}")
         if loaded and df.index.tolist() != ids:
             res.bad("indexed-by-id", f"rank {r}: frame index differs from the event-id column")
